@@ -481,14 +481,21 @@ def system_family(ctx, catname="MCCat", quick_idx="QuickIdx", relabel=None, extr
         c["cfg"] = fam_codec.CFGS["default"]
     p1 = os.path.join(ctx.work, "hist_cases.ndjson")
     fam_codec.write_cases(allc, p1, 0)
+    os.environ["PVH_CAT_N"] = str(nfixed)       # the hand-picked items, whose values are chosen to collide (same lengths, shared prefixes)
     p2 = fam_codec.gen_random(ctx.pvh, ctx.work, nsim, ctx.seed, cfg="default", kind="hist", idbase=1000000, tag="rhist")
+    os.environ["PVH_CAT_N"] = "0"
     ctx.case_files = [p1, p2]
     t1 = fam_codec.run_cases(ctx.pvh, p1, ctx.work, "hist")
     t2 = fam_codec.run_cases(ctx.pvh, p2, ctx.work, "rhist")
+    parts = [t1, t2]
+    if len(cat) > nfixed:                        # ... and histories over all items, the random ones included
+        p3 = fam_codec.gen_random(ctx.pvh, ctx.work, nsim // 2, ctx.seed + 5, cfg="default", kind="hist", idbase=3000000, tag="rhist2")
+        ctx.case_files.append(p3)
+        parts.append(fam_codec.run_cases(ctx.pvh, p3, ctx.work, "rhist2"))
     trace = os.path.join(ctx.work, "all_trace.ndjson")
     with open(trace, "wb") as f:
-        shutil.copyfileobj(open(t1, 'rb'), f)
-        shutil.copyfileobj(open(t2, 'rb'), f)
+        for t in parts:
+            shutil.copyfileobj(open(t, 'rb'), f)
     ctx.judge_kw = dict(extra_consts='  CatFile = "%s"\n  Cat <- CatLit\n  Bufs = {"b1", "b2"}\n  MaxSteps = 100\n  GenIdx <- AllIdx\n' % catp,
                         defs="CatLit == " + vlib.tla_literal(cat))
     ctx.judge_kw_module = "TraceSystem"
